@@ -14,7 +14,7 @@ def encOf (s : String) : Option Enc :=
   else if s = "zstd" then some .zstd else none
 
 def clsName : Cls → String
-  | .ok => "ok" | .user => "user" | .tooLargeEnc => "tooLargeEnc" | .over4G => "over4G"
+  | .ok => "ok" | .user => "user" | .tooLargeEnc => "tooLargeEnc" | .over4G => "over4G" | .encode => "encode"
   | .badFlag => "badFlag" | .noEncoding => "noEncoding" | .tooLargeDec => "tooLargeDec"
   | .decompress => "decompress" | .codec => "codec" | .eof => "eof" | .http => "http"
 
@@ -62,21 +62,23 @@ def parseSrcEv (s : String) : Option (SrcEv Bytes) :=
   | _ => none
 
 def parseEncCase : List String → Option EncCase
-  | kind :: role :: comp :: ovr :: y :: _buf :: mx :: np :: "Z" :: k :: rest =>
+  | kind :: role :: comp :: ovr :: y :: buf :: mx :: np :: "Z" :: k :: rest =>
     if kind ≠ "enc" ∧ kind ≠ "penc" then none else
-    match nat? y, optNat? mx, nat? np, nat? k with
-    | some y, some mx, some np, some k =>
+    match nat? y, optNat? mx, nat? np, nat? k, nat? buf with
+    | some y, some mx, some np, some k, some buf =>
       match parseZ k rest with
       | some (tab, "EV" :: evs) =>
         match evs.mapM parseSrcEv with
         | some evs =>
           let c := encOf comp
           some { prost := kind = "penc",
-                 cfg := { comp := if ovr = "d" ∧ role = "s" then none else c, yieldThr := y, maxSize := mx, server := role = "s" },
+                 -- the model's `EncodeBody::new_server` / `new_client` (the per-response opt-out is the model's)
+                 cfg := if role = "s" then Enc.newServer c (if ovr = "d" then .disable else .inherit) y buf mx
+                        else Enc.newClient c y buf mx,
                  comp := c, npolls := np, tab := tab, evs := evs }
         | none => none
       | _ => none
-    | _, _, _, _ => none
+    | _, _, _, _, _ => none
   | _ => none
 
 def frameTok : FrameOut → String
@@ -85,6 +87,7 @@ def frameTok : FrameOut → String
   | .err st => stTok "e" st
   | .pending => "p"
   | .none => "n"
+  | .panic => "panic"
 
 def runEnc (c : EncCase) : String :=
   String.intercalate " " ((Enc.run (tableCodec c.tab c.prost) c.cfg c.npolls Enc.init c.evs).map frameTok)
